@@ -5,6 +5,7 @@ import (
 	"github.com/aml-org/amf-custom-validator/internal/misc"
 	"github.com/aml-org/amf-custom-validator/internal/parser/path"
 	"github.com/aml-org/amf-custom-validator/internal/parser/profile"
+	"strings"
 )
 
 type RegoPathResult struct {
@@ -130,18 +131,26 @@ func aggregateResultsIntoSet(paths []regoPathResultInternal) RegoPathResult {
 func aggregateResultsIntoArray(paths []regoPathResultInternal) RegoPathResult {
 	rego := make([]string, 0)
 	ruleName := profile.Genvar("path_array_rule")
+	// one array comprehension per alternative path; an array comprehension has a single body, so the
+	// alternatives (because of ORs) are concatenated instead of being written as extra clauses
 	for i, p := range paths {
 		if i == 0 {
-			rego = append(rego, fmt.Sprintf("%s = [ nodes | ", ruleName)) // header of the rule
+			rego = append(rego, fmt.Sprintf("%s = %s[ nodes | ", ruleName, strings.Repeat("array.concat(", len(paths)-1))) // header of the rule
 		} else {
-			rego = append(rego, "} {") // add another clause to the rule // TODO ?
+			rego = append(rego, "[ nodes | ")
 		}
 		for _, r := range p.rego {
 			rego = append(rego, "  "+r) // add the rego code to the final rule
 		}
-	}
-	if len(rego) > 0 {
-		rego = append(rego, "]")
+		if i == 0 && len(paths) > 1 {
+			rego = append(rego, "],")
+		} else if i < len(paths)-1 {
+			rego = append(rego, "]),")
+		} else if len(paths) > 1 {
+			rego = append(rego, "])")
+		} else {
+			rego = append(rego, "]")
+		}
 	}
 
 	return RegoPathResult{
